@@ -26,15 +26,17 @@ def _pre(pairs, **kw): return [dict(kw, PRE0=a, PRE1=b) for a, b in pairs]
 QP = [(0, 0), (1, 3), (3, 1), (2, 5), (5, 4), (4, 6), (6, 2)]
 ALLP = [(a, b) for a in range(7) for b in range(7)]
 HEAPF = ['--memory-leak-check', '--slice-formula']
-# pairs that contain the sized constructor (op 6) lie wholly inside the two pending findings on utl::vector(N) (uninitialised cells / leaked malloc(0) block):
-# they are enumerated again as soon as NMV_NO_PENDING=1 is set (i.e. once the findings are fixed)
-OPS2 = [(a, b) for a in range(7) for b in range(7) if not _PENDING_ON or 6 not in (a, b)]
+# pairs that contain the sized constructor (op 6) used to lie inside two findings on utl::vector(N) (uninitialised cells / leaked malloc(0) block); both are repaired (5d096ac, 5a91a2c) and the pairs are enumerated
+# a write (op 2) needs a non-empty target: as FIRST step on the empty default state, or right after an assign / copy / self-assign between two empty objects (ops 3, 4, 5), no valid index exists -
+# those pairs have an empty input domain (their harness would be vacuous) and are not scheduled
+_VACUOUS = lambda a, b: a == 2 or (b == 2 and a in (3, 4, 5))
+OPS2 = [(a, b) for a in range(7) for b in range(7) if not _VACUOUS(a, b)]
 def _ops(pairs, **kw): return [dict(kw, OP0=a, OP1=b) for a, b in pairs]
 _h('hist_vector', 'h_hist', 'utl::vector<int> (heap, malloc/free; CBMC heap model with --memory-leak-check); ' + HB,
    quick=_pre([(0, 0)], KIND=0, K=1, OUTCAP=8), thorough=_pre(ALLP, KIND=0, K=1, OUTCAP=8) + [dict(KIND=0, K=2, OUTCAP=9, PRE0=0, PRE1=0, _timeout=1800, _mem_gb=14)],
    cbmc_flags=HEAPF, unwind=10, mem_gb=8, kf=['KF_C19_VECTOR_SIZED_CTOR_UNINIT', 'KF_C19_VECTOR_ZERO_LEAK'])
 _OPS2_ONLY = os.environ.get('C19_OPS2')      # builder aid: "6,0" runs just that pair
-_h('hist_vector_ops2', 'h_hist', 'utl::vector<int>, two live objects, histories of 2 steps whose OPERATIONS are per-query constants (every ordered pair of the 7-letter alphabet in the thorough tier, 8 pairs quick); '
+_h('hist_vector_ops2', 'h_hist', 'utl::vector<int>, two live objects, histories of 2 steps whose OPERATIONS are per-query constants (every ordered pair of the 7-letter alphabet that has a non-empty input domain - 39 of 49 - in the thorough tier, 8 pairs quick); '
    'targets and arguments n, v symbolic; sizes/elements of both objects against the std::vector model; --memory-leak-check',
    quick=_ops([tuple(int(x) for x in _OPS2_ONLY.split(','))] if _OPS2_ONLY else [(0, 1), (1, 0), (1, 1), (5, 1), (3, 0), (1, 3), (0, 5), (1, 2)], KIND=0, K=2, OUTCAP=9),
    thorough=_ops(OPS2, KIND=0, K=2, OUTCAP=9), cbmc_flags=HEAPF, unwind=10, mem_gb=6, kf=['KF_C19_VECTOR_SIZED_CTOR_UNINIT', 'KF_C19_VECTOR_ZERO_LEAK'])
@@ -95,7 +97,7 @@ PENDING_FINDINGS = [
 # END PENDING_FINDINGS
 OUTSIDE = [
  'utl::vector histories of more than 2 fully symbolic steps: with CBMC\'s heap model a 2-step history with all 7 operations symbolic exhausts 7 GB (and 3 steps on ONE object > 7 GB / no verdict in 400 s); '
- 'reached instead: 1 symbolic step (all operations) after every pair of 7 concrete reachable pre-states (thorough) and all 49 two-operation sequences with symbolic targets/arguments (thorough; 8 of them quick). '
+ 'reached instead: 1 symbolic step (all operations) after every pair of 7 concrete reachable pre-states (thorough) and all 39 two-operation sequences with a non-empty input domain, symbolic targets/arguments (thorough; 8 of them quick; the other 10 of the 49 ordered pairs put a write where no element can exist yet). '
  'A slot allocator behind nmtools_malloc/nmtools_free (kernels built with -DC19_POOL, kept in the source) did not help: K=2 gave no verdict in 600 s',
  'small_vector once an object switches to its heap alternative (std::vector / utl::vector stored in a variant/union) and small_vector::resize: no verdict (out of memory at 8.5 GB within 60 s for K=1 with a constant operation; '
  'resize: no verdict in 1149 s / 9.5 GB). Only its in-place mode is covered',
